@@ -614,10 +614,14 @@ func (e *env) shellTunnel() {
 	var canaries [][]byte
 	n := e.c.Rand.Pick(100, 5000, 16355, 20000, 70000)
 	content := e.payload(n, &canaries)
-	src := filepath.Join(e.scratch, "shell-src.bin")
+	// the command line is application data too: the file name carries an ASCII canary
+	nameCanary := fmt.Sprintf("%x", e.c.Rand.Bytes(16))
+	canaries = append(canaries, []byte(nameCanary))
+	src := filepath.Join(e.scratch, "shell-"+nameCanary+".bin")
 	if err := os.WriteFile(src, content, 0o644); err != nil {
 		panic(err)
 	}
+	defer os.Remove(src)
 	m, k0 := e.rec.mark(), e.keyCount()
 	ctx, cancel := context.WithTimeout(context.Background(), 60*time.Second)
 	defer cancel()
@@ -679,7 +683,11 @@ func (e *env) fileTunnel() {
 	content := e.payload(n, &canaries)
 	dir := filepath.Join(e.scratch, "files")
 	os.MkdirAll(dir, 0o755)
-	local, remote, back := filepath.Join(dir, "up.bin"), filepath.Join(dir, "remote.bin"), filepath.Join(dir, "back.bin")
+	// the remote path travels in the transfer metadata: it carries an ASCII canary
+	nameCanary := fmt.Sprintf("%x", e.c.Rand.Bytes(16))
+	canaries = append(canaries, []byte(nameCanary))
+	local, remote, back := filepath.Join(dir, "up.bin"), filepath.Join(dir, "remote-"+nameCanary+".bin"), filepath.Join(dir, "back.bin")
+	defer os.Remove(remote)
 	os.Remove(remote)
 	os.Remove(back)
 	if err := os.WriteFile(local, content, 0o644); err != nil {
